@@ -707,6 +707,20 @@ TARGETS.append(dict(
     alias="def parseSection (line : List Char) : Option (RecKind × Option Dir) := (P0f.parseSection line).map fun s => (s.kind, s.dir)\n",
 ))
 
+# ---------------------------------------------------------------------------------------------- C18: the writers
+TARGETS.append(dict(
+    module="pyp0f.net.layers.tcp.options", func="TCPOptions.dump", file="DumpLayout", lean="dumpLayout", import_="P0f.Model.TcpOptions", open="P0f",
+    pyparams=["self"], params=[("layout", "List Nat"), ("eolPad", "Nat")], ret="Str", lean_ret="List Char",
+    env={"self.layout": ("layout", "List:Nat"), "self.eol_padding_length": ("eolPad", "Nat")}, lean_types={"Str": "List Char"},
+    alias="def dumpLayout (layout : List Nat) (eolPad : Nat) : List Char := P0f.dumpLayout layout eolPad\n",
+))
+TARGETS.append(dict(
+    module="pyp0f.net.quirks", func="dump_quirks", file="DumpQuirks", lean="dumpQuirks", import_="P0f.Model.TcpOptions", open="P0f",
+    pyparams=["quirks"], params=[("quirks", "QSet")], ret="Str", lean_ret="List Char",
+    env={"quirks": ("quirks", "QSet")}, lean_types={"Str": "List Char"},
+    alias="def dumpQuirks (quirks : QSet) : List Char := P0f.dumpQuirks quirks\n",
+))
+
 for t in TARGETS:
     if "import_" in t:
         t["import"] = t.pop("import_")
